@@ -240,6 +240,12 @@ func (c *Config) cert(hostname string) (*tls.Certificate, error) {
 		hostname = host
 	}
 
+	// Without a name there is nothing to issue a certificate for: refuse the
+	// handshake instead of presenting a certificate for the empty name.
+	if hostname == "" {
+		return nil, errors.New("mitm: no SNI or hostname provided, failed to build certificate")
+	}
+
 	c.certmu.RLock()
 	tlsc, ok := c.certs[hostname]
 	c.certmu.RUnlock()
